@@ -206,6 +206,9 @@ func (f *frame) iteVal(c Term, a, b Val) Val {
 
 func (f *frame) execBlock(b *ssa.BasicBlock, st0 *State, reach0 Term) {
 	u := f.u
+	if f.top {
+		u.markBlock(b.Index)
+	}
 	var st *State
 	var reach Term
 	li := f.loops[b.Index]
@@ -536,7 +539,7 @@ func (f *frame) execInstr(ins ssa.Instruction) {
 		if f.top && f.curReach.S != "false" {
 			// vacuity guard: this return statement is reachable under the contract's assumptions
 			u.covCtr++
-			u.obls = append(u.obls, &Obligation{Name: fmt.Sprintf("cover.%s.return%d", f.key, u.covCtr), Kind: "cover", Goal: not(f.curReach), NItems: len(u.items), Fn: f.key, Cover: true,
+			u.obls = append(u.obls, &Obligation{Name: fmt.Sprintf("cover.%s.return%d", f.key, u.covCtr), Kind: "cover", Goal: not(f.curReach), NItems: len(u.items), Fn: f.key, Cover: true, Blk: u.curBlk,
 				Src: "return at " + f.pos(ins) + " is reachable"})
 		}
 	case *ssa.Panic:
